@@ -111,7 +111,7 @@ func ifTagCompiler(polarity bool) func(render.BlockNode) (func(io.Writer, render
 				if err != nil {
 					return err
 				}
-				if value != nil && value != false {
+				if values.Truthy(value) {
 					return ctx.RenderBlock(w, b.body)
 				}
 			}
